@@ -66,6 +66,7 @@ type Knobs struct {
 
 	PreferAvailable bool // "visible" means transitively available in the predicted model
 	PReencode       int  // C15: probability that a function gets an alternative equivalent encoding
+	PReenter        int  // C02: probability that a constructor body calls back into the container
 
 	// Case-level switches
 	NoDecorators   bool
@@ -565,6 +566,18 @@ func (g *gen) genProvide(s int) Op {
 	f.P = g.encodeParams(pl)
 	g.errAndVariadic(f)
 	g.faults(f)
+	if g.pct(g.k.PReenter, "reenter") {
+		// the body demands, from a random scope, its own first key or keys
+		// visible there
+		rs := g.pickScope("rs")
+		var rl2 []pleaf
+		if g.pct(50, "reown") && rl[0].key.Group == "" {
+			rl2 = append(rl2, pleaf{key: rl[0].key})
+		} else {
+			rl2 = g.drawParamLeaves(rs, 1+g.pick(2, "rn"), 90, true)
+		}
+		f.Reenter = &Reenter{S: rs, P: g.encodeParams(rl2)}
+	}
 	if g.pct(g.k.PInfo, "info") {
 		o.Info = true
 	}
